@@ -157,7 +157,7 @@ func (x *g) batch(sec, odfi string, batchNumber int, kind string) (ach.Batcher, 
 		}
 	}
 
-	if kind == KindForward && x.o.Offset && offsetSECs[sec] && x.r.Chance(1, 3) {
+	if (kind == KindForward || (x.o.OffsetReturns && kind == KindReturn)) && x.o.Offset && offsetSECs[sec] && x.r.Chance(1, 3) {
 		b.WithOffset(&ach.Offset{
 			RoutingNumber: x.routing(),
 			AccountNumber: x.text(17, aIdent),
